@@ -635,27 +635,41 @@ def _own_loop_exits(loop):
 
 # {{{ IfThenElse rules
 
-def _slots(P, clsname):
+def _slot_pairs(P, clsname):
+    """[(constructor parameter, attribute it is stored in)] - the attribute is the
+    slot's name; a parameter that is not stored under a plain attribute keeps its own."""
     c = P.cls(f"{MOD}.{clsname}")
     init = c.methods.get("__init__")
     if init is None:
         return []
+    stored = {}
+    for s_ in ast.walk(init.node):
+        if isinstance(s_, ast.Assign) and len(s_.targets) == 1 \
+                and isinstance(s_.targets[0], ast.Attribute) \
+                and dotted(s_.targets[0].value) == "self" and isinstance(s_.value, ast.Name):
+            stored.setdefault(s_.value.id, s_.targets[0].attr)
     a = init.node.args
     if a.vararg is not None:
-        return ["*" + a.vararg.arg]
-    return [x for x in init.params if x != "self"]
+        return [(a.vararg.arg, "*" + stored.get(a.vararg.arg, a.vararg.arg))]
+    return [(x, stored.get(x, x)) for x in init.params if x != "self"]
+
+
+def _slots(P, clsname):
+    return [attr for _p, attr in _slot_pairs(P, clsname)]
 
 
 def _ctor_args(P, call, clsname):
     """slot name -> arg node for a constructor call."""
-    slots = _slots(P, clsname)
+    pairs = _slot_pairs(P, clsname)
+    slots = [attr for _p, attr in pairs]
+    by_param = dict(pairs)
     out = {}
     for i, a in enumerate(call.args):
         if i < len(slots):
             out[slots[i]] = a
     for kw in call.keywords:
         if kw.arg:
-            out[kw.arg] = kw.value
+            out[by_param.get(kw.arg, kw.arg)] = kw.value
     return out
 
 
@@ -819,13 +833,13 @@ def _identity(run, P):
             raise AnalysisError(f"{f.fq}: single constructor return expected")
         call = rets[0].value
         fn = ast.unparse(call.func)
-        if fn not in ("type(expr)", clsname):
+        if fn not in (f"type({f.arg(0)})", clsname):
             raise AnalysisError(f"{f.fq}: unrecognised constructor {fn}")
         if slots and slots[0].startswith("*"):
             # Block(*children)
             a = call.args[0] if call.args else None
             ok = isinstance(a, ast.Starred) and isinstance(a.value, (ast.ListComp, ast.GeneratorExp)) \
-                and dotted(a.value.generators[0].iter) == f"expr.{slots[0][1:]}" \
+                and dotted(a.value.generators[0].iter) == f"{f.arg(0)}.{slots[0][1:]}" \
                 and not a.value.generators[0].ifs \
                 and isinstance(a.value.elt, ast.Call) and dotted(a.value.elt.func) == "self.rec"
             run.ob("C06.identity", f, call, ok,
@@ -838,7 +852,7 @@ def _identity(run, P):
             a = args.get(sl)
             src = a.args[0] if isinstance(a, ast.Call) and dotted(a.func) == "self.rec" and a.args else a
             ok = isinstance(src, ast.Attribute) and src.attr == sl \
-                and isinstance(src.value, ast.Name)
+                and isinstance(src.value, ast.Name) and src.value.id == f.arg(0)
             run.ob("C06.identity", f, a if a is not None else call, ok,
                    construct=f"{clsname}.{sl} <- {norm(a) if a is not None else 'missing'}",
                    why=f"slot '{sl}' of the rebuilt node must come from slot '{sl}' "
